@@ -238,7 +238,9 @@ pub fn run(cfg: &PoolCfg, cases: &[Vec<u8>]) -> Vec<Outcome> {
     let n = cases.len();
     let results: Arc<Mutex<Vec<Option<Outcome>>>> = Arc::new(Mutex::new(vec![None; n]));
     let next = Arc::new(AtomicUsize::new(0));
-    let chunk = (n / (cfg.workers * 16)).clamp(1, 256);
+    // small chunks: slow cases cluster (neighbouring cases come from the same template), and a chunk is
+    // worked off by one worker
+    let chunk = (n / (cfg.workers * 16)).clamp(1, 8);
     std::thread::scope(|s| {
         for _ in 0..cfg.workers.min(n.max(1)) {
             let results = results.clone();
